@@ -45,9 +45,13 @@ infos = [MediaCipher.INFO_IMAGE, MediaCipher.INFO_AUDIO, MediaCipher.INFO_VIDEO,
 for L in (0, 1, 15, 16, 17, 48, 1000):
     p = bytes(bytearray((7 * i + L) % 256 for i in range(L)))
     for ki, info in enumerate(infos):
-        c = bytes(mc.encrypt(p, key, info))
-        if bytes(mc.decrypt(c, key, info)) != p:
+        try:
+            c = bytes(mc.encrypt(p, key, info))
+            if bytes(mc.decrypt(c, key, info)) != p:
+                out.append(["roundtrip", L, ki])
+        except Exception:
             out.append(["roundtrip", L, ki])
+            continue
         cases = [("flip-body", c[:3] + bytes(bytearray([c[3] ^ 0x40])) + c[4:], key, info), ("flip-tag", c[:-1] + bytes(bytearray([c[-1] ^ 1])), key, info),
                  ("trunc", c[:-1], key, info), ("key", c, bytes(bytearray([key[0] ^ 1])) + key[1:], info), ("kind", c, key, infos[(ki + 1) % 4])]
         for name, cc, kk, ii in cases:
@@ -77,6 +81,39 @@ def optimised_interpreter(r):
     for name, L, ki in res["accepted"][:6]:
         r.violation("optimised:%s" % name, "under python -O: %s for content length %d, kind #%d %s" % (
             name, L, ki, "is not refused" if name != "roundtrip" else "does not return the content"), {"len": L, "kind": ki, "op": name})
+
+
+def results_are_values(r, rng):
+    """What encrypt / decrypt return are values: a result obtained earlier is not changed by later calls on the same cipher object, and
+    is of a type that can be stored and compared like bytes (the application keeps ciphertexts around while it uploads them)."""
+    from yowsup.layers.protocol_media.mediacipher import MediaCipher
+    mc = MediaCipher()
+    infos = [MediaCipher.INFO_IMAGE, MediaCipher.INFO_AUDIO, MediaCipher.INFO_VIDEO, MediaCipher.INFO_DOCUM]
+    for trial in range(6):
+        r.case(("results-are-values", trial))
+        key = bytes(bytearray(rng.getrandbits(8) for _ in range(32)))
+        lens = [rng.choice([0, 5, 16, 100, 1000]) for _ in range(4)]
+        lens.sort(reverse=(trial % 2 == 0))
+        plains = [bytes(bytearray(rng.getrandbits(8) for _ in range(L))) for L in lens]
+        cts, frozen = [], []
+        try:
+            for i, p in enumerate(plains):
+                c = mc.encrypt(p, key, infos[i % 4])
+                cts.append(c)
+                frozen.append(bytes(c))
+            changed = [i for i in range(len(cts)) if bytes(cts[i]) != frozen[i]]
+            outs, ofrozen = [], []
+            for i in range(len(cts)):
+                o = mc.decrypt(frozen[i], key, infos[i % 4])
+                outs.append(o)
+                ofrozen.append(bytes(o))
+            ochanged = [i for i in range(len(outs)) if bytes(outs[i]) != ofrozen[i] or ofrozen[i] != plains[i]]
+        except Exception as e:
+            r.violation("values:exception:%s" % type(e).__name__, "a sequence of encryptions / decryptions on one cipher object raised %r" % (e,), {"lens": lens})
+            continue
+        if changed or ochanged:
+            r.violation("values:earlier-result-changed", "content lengths %s on one cipher object: the ciphertext returned by call(s) %s / plaintext of call(s) %s changed after later calls" % (
+                lens, changed, ochanged), {"lens": lens})
 
 
 def run():
@@ -202,6 +239,7 @@ def run():
         if L in (0, 16, 33):
             r.sample({"plaintext_len": L, "expected_ciphertext_len": exp_len, "kind": kind, "operations": ["encrypt==reference", "decrypt(reference)==plaintext", "%d tamper cases" % len(ops)]})
     optimised_interpreter(r)
+    results_are_values(r, rng)
     r.cov["traces_validated_against_impl"] = r.cov["evaluations"]
     r.assumptions += core.ENV_ASSUMPTIONS[:1] + ["the WhatsApp layout is the one written in MediaCipher.tla (LayoutTerm); compatibility with WhatsApp servers themselves cannot be checked offline",
                       "independent primitives: cryptography HKDF-SHA256 / AES-CBC, hmac, hashlib (the code under test uses python-axolotl's HKDFv3)"]
